@@ -250,6 +250,9 @@ func truncDivRem(a, b *Term) (q, r *Term) {
 	return
 }
 
+// bigAppendConcrete: concrete (*big.Int).Append that tolerates a buffer with symbolic bytes.
+var bigAppendConcrete intrinsic
+
 type quoRec struct{ a, b, r *Term }
 
 var quoInfo = map[int]quoRec{}
@@ -531,6 +534,9 @@ func init() {
 	regBig("Append", func(fr *frame, fn *ssa.Function, args []Val) Val {
 		x := bigOf(fr, args[0])
 		if x.isConc() {
+			if bigAppendConcrete != nil {
+				return bigAppendConcrete(fr, fn, args)
+			}
 			return bigMethodNative(fr, fn, args)
 		}
 		if !opaqueIntText {
